@@ -10,10 +10,12 @@ SIZES = {1: 8, 2: 12, 3: 18}
 def obligations(tier):
     # (alphabet level, history length, target enabled first?, parts)
     # pre: 0 = none, 1 = target enabled first, 2 = target enabled and every call site executed once first
-    fams = [(1, 3, 0, 20), (2, 2, 2, 6), (2, 2, 0, 6)] if tier == "quick" else \
-           [(2, 3, 0, 16), (2, 3, 1, 16), (2, 3, 2, 16), (3, 2, 0, 4), (3, 3, 0, 48), (1, 4, 0, 32), (1, 4, 2, 32)]
+    # base: number of dynamic call sites created before the history (0: the three sites are slots 0-2 of the first bin;
+    #       13: slots 13-15, the last slot of the bin included; 15: slot 15 and the first two slots of a second bin)
+    fams = [(1, 3, 0, 20, 0), (2, 2, 2, 6, 13), (2, 2, 0, 6, 15)] if tier == "quick" else \
+           [(2, 3, 0, 16, 0), (2, 3, 1, 16, 13), (2, 3, 2, 16, 15), (3, 2, 0, 4, 13), (3, 3, 0, 48, 0), (1, 4, 0, 32, 15), (1, 4, 2, 32, 13)]
     obs = []
-    for lvl, nops, pre, parts in fams:
+    for lvl, nops, pre, parts, base in fams:
         alpha = SIZES[lvl]
         total = alpha ** nops
         per = (total + parts - 1) // parts
@@ -21,10 +23,10 @@ def obligations(tier):
             n = min(per, total - part * per)
             if n <= 0: break
             obs.append(Obl("route-A%d-N%d%s-part%d" % (alpha, nops, ("", "-en", "-enlog")[pre], part), "c12_route.c",
-                           defs=["NOPS=%d" % nops, "SC_BASE=%d" % (part * per), "ALPHABET=%d" % lvl] + (["PRELOAD_ENABLED"] if pre else []) + (["PRELOAD_KNOWN"] if pre == 2 else []),
+                           defs=["NOPS=%d" % nops, "SC_BASE=%d" % (part * per), "ALPHABET=%d" % lvl] + (["PRELOAD_ENABLED"] if pre else []) + (["PRELOAD_KNOWN"] if pre == 2 else []) + (["SITE_BASE=%d" % base] if base else []),
                            unwind=34, n_entries=n, timeout=120, mem_gb=4, object_bits=10, flags=["--max-field-sensitivity-array-size", "520"],
                            kf=["C12-remove-overlap"],
-                           bounds={"history_length": nops, "alphabet": alpha, "prefix": ("none", "enable", "enable, log from every site")[pre], "scenarios": "%d..%d of %d" % (part * per, part * per + n - 1, total), "call_sites": 3, "targets": "syslog + 1 custom"},
+                           bounds={"history_length": nops, "alphabet": alpha, "prefix": ("none", "enable", "enable, log from every site")[pre], "scenarios": "%d..%d of %d" % (part * per, part * per + n - 1, total), "call_sites": 3, "call_site_slots": "%d..%d" % (base, base + 2), "targets": "syslog + 1 custom"},
                            units=["lib/log.c", "lib/log_dcs.c"],
                            stubs=["qb_array: contract model over typed static storage", "syslog/stderr/blackbox open = recording logger", "log_thread/log_format/clock: empty", "regcomp/regexec: substring contract", "vsnprintf: one-character message", "pthread_rwlock: no-ops", "seqenv.h"]))
     return obs
